@@ -23,7 +23,7 @@ Values(h) == CASE h = "X-Forwarded-Host"  -> {"whitelisted", "foreign"}
 Endpoints == {"protected", "authonly", "start", "sign_in", "sign_out", "callback"}
 Creds     == {"none", "session"}
 \* configuration variants (all have trusted IPs, a skip-auth route, a whitelist domain and cookie domains)
-Cfgs == {"plain", "spb", "forcehttps", "insecure_cookie"}
+Cfgs == {"plain", "spb", "forcehttps", "insecure_cookie", "redirecturl"}      \* redirecturl: an explicit --redirect-url is configured
 
 \* ---- effective values (transcription of GetRequestHost / Proto / URI and GetClientIP) ------------
 Has(req, h) == h \in DOMAIN req.hdr
